@@ -29,12 +29,14 @@ var c06ReqCands = []string{
 	"||ads.com^$badfilter", "||ads.com^$important,badfilter", "@@||ads.com^$badfilter", "||ads.com^$image,badfilter",
 	"||ads.com^$domain=ref.com,badfilter", "@@||ads.com^$important,badfilter",
 	"/banner", "/banner$important", "@@/banner$image", "/banner$badfilter",
+	"||ads.com^$domain=ref.com|x.com", "||ads.com^$domain=x.com|x.com,badfilter", "||ads.com^$domain=x.com|ref.com,badfilter",
 }
 
 var c06SrcCands = []string{
 	"@@||ref.com^$urlblock", "@@||ref.com^$genericblock", "@@||ref.com^$urlblock,important", "@@||ref.com^$genericblock,important",
 	"@@||ref.com^$document", "@@||ref.com^$elemhide", "@@||ref.com^$urlblock,badfilter", "@@||ref.com^$genericblock,badfilter",
 	"||ref.com^", "@@||ref.com^$stealth", "@@||ref.com^$jsinject", "@@||ref.com^$genericblock,domain=~x.com", "@@||ref.com^$document,badfilter",
+	"@@||ref.com^$urlblock,genericblock", "@@||ref.com^$genericblock,document", "@@||ref.com^$genericblock,urlblock,important",
 }
 
 // host-level candidates for the DNS flavour, all matching host ads.com, type A.
@@ -89,6 +91,12 @@ func c06FeatOf(s string) c06Feat {
 			}
 		}
 		if o != "" {
+			// the order of the values inside a list modifier is not part of a rule's identity
+			if name, vals, ok := strings.Cut(o, "="); ok && strings.Contains(vals, "|") {
+				vs := strings.Split(vals, "|")
+				sort.Strings(vs)
+				o = name + "=" + strings.Join(vs, "|")
+			}
 			rest = append(rest, o)
 		}
 	}
